@@ -436,7 +436,7 @@ def shrink(ctx, c, bad_many, rounds=30):
 def quiet_correspond(ctx, cases):
     before = ctx.cov["evaluations"]
     st = json.dumps(ctx.cov["suites"])
-    i, m, crash = vf.correspond(ctx, "shrink", cases, shards=1)
+    i, m, crash = vf.correspond(ctx, "shrink", cases, shards=1, timeout=20)
     ctx.cov["evaluations"] = before
     ctx.cov["suites"] = json.loads(st)
     return i, m, crash
@@ -455,7 +455,7 @@ def disagree_many(ctx, cases):
 
 def crashes_many(ctx, cases):
     res = []
-    for c in cases[:120]:
+    for c in cases[:60]:
         _, _, c1 = quiet_correspond(ctx, [c])
         res.append(c1 is not None)
     return res + [False] * (len(cases) - len(res))
@@ -471,7 +471,7 @@ def text_differs_many(ctx, cases):
 THEOREMS = {
     "S-b64": "PAuth.v b64_mem_no_fault / b64_mem_spec / b64_mem_min_capacity / b64_roundtrip (total: for every input)",
     "S-auth": "PAuth.v au_no_fault / au_basic_spec / au_digest_spec / au_quoted_spec (total: for every header value)",
-    "S-cookie": "PAuth.v ck_no_fault / ck_fuel_sufficient / ck_entries_ordered / ck_spec (total: for every header value)",
+    "S-cookie": "PAuth.v ck_no_fault / ck_fuel_sufficient / ck_entries_sorted / ck_pairs_are_slices / ck_spec_thm (total: for every header value)",
 }
 
 
@@ -480,7 +480,8 @@ def check_leaves(ctx):
     keys = set()
     for name, gen in suites:
         cases = gen(ctx)
-        impl, model, crash = vf.correspond(ctx, name, cases)
+        # a call that does not return (e.g. a scanner that stops advancing) is reported after this many seconds
+        impl, model, crash = vf.correspond(ctx, name, cases, timeout=900 if ctx.thorough() else 120)
         st = ctx.cov["suites"][name]
         if crash:
             idx = crash[0]
